@@ -33,11 +33,11 @@ type node[T any] struct {
 	kind string
 }
 
-func (n *node[T]) Col() proto.Column   { return n.col }
-func (n *node[T]) T() *ref.Type        { return n.t }
-func (n *node[T]) Append(v ref.Val)    { n.col.Append(n.to(v)) }
-func (n *node[T]) Get(i int) ref.Val   { return n.from(n.col.Row(i)) }
-func (n *node[T]) Kind() string        { return n.kind }
+func (n *node[T]) Col() proto.Column { return n.col }
+func (n *node[T]) T() *ref.Type      { return n.t }
+func (n *node[T]) Append(v ref.Val)  { n.col.Append(n.to(v)) }
+func (n *node[T]) Get(i int) ref.Val { return n.from(n.col.Row(i)) }
+func (n *node[T]) Kind() string      { return n.kind }
 
 func mustType(s string) *ref.Type {
 	t, err := ref.ParseType(s)
@@ -427,7 +427,9 @@ func init() {
 	regLeaf(leafDef[proto.Interval]{typ: "IntervalDay", kind: "ColInterval", mk: func() proto.ColumnOf[proto.Interval] {
 		return intervalCol{&proto.ColInterval{Scale: proto.IntervalDay}}
 	},
-		to:   func(v ref.Val) proto.Interval { return proto.Interval{Scale: proto.IntervalDay, Value: int64(le(v.B, 8))} },
+		to: func(v ref.Val) proto.Interval {
+			return proto.Interval{Scale: proto.IntervalDay, Value: int64(le(v.B, 8))}
+		},
 		from: func(i proto.Interval) ref.Val { return ref.Leaf(putLE(uint64(i.Value), 8)) }})
 	// fixed strings
 	regLeaf(leafDef[[]byte]{typ: "FixedString(5)", kind: "ColFixedStr", mk: func() proto.ColumnOf[[]byte] { c := new(proto.ColFixedStr); c.SetSize(5); return c },
